@@ -26,6 +26,8 @@ pub fn case(nontrivial: bool) {
 
 pub fn run(pid: &str, tier: &str, seed: u64) {
   match pid {
+    "C01" => crate::o_star::c01(tier, seed),
+    "C16" => crate::o_star::c16(tier, seed),
     "C06" => crate::o_sharks::c06(tier, seed),
     "C07" => crate::o_sharks::c07(tier, seed),
     "C08" => crate::o_wire::c08(tier, seed),
